@@ -86,11 +86,11 @@ def lxml_read(s):
     from lxml import etree
     try:
         e = etree.fromstring(s.encode("utf-8"), etree.XMLParser(resolve_entities=False, no_network=True))
-    except (etree.XMLSyntaxError, ValueError):
+    except Exception:  # noqa: BLE001   (XMLSyntaxError, ValueError, encoding errors: lxml does not read it)
         return None
     try:
         return lxml_tree(e)
-    except ValueError:
+    except Exception:  # noqa: BLE001
         # libxml2 only warns about an attribute with an undeclared prefix (<a p:k="v"/>) and keeps the name "p:k";
         # such a document is not namespace-well-formed: counted as rejected, as the reference reader does
         return None
@@ -339,7 +339,11 @@ def check_cases(ctx, cases):
             fails.append("lxml.etree.fromstring(output) differs from the original content model")
         else:
             from lxml import etree
-            if lxml_true(etree.fromstring(sv.encode("utf-8"))) != o["true0"]:
+            try:
+                true1 = lxml_true(etree.fromstring(sv.encode("utf-8")))
+            except Exception as ex:  # noqa: BLE001
+                true1 = ("unreadable", type(ex).__name__)
+            if true1 != o["true0"]:
                 fails.append("lxml level: the expanded attribute names held by lxml differ after the round trip "
                              "(equal as presented by delb)")
         if "parse" in e:
